@@ -35,6 +35,8 @@ pub struct PoolIndex {
     pub hint_evs: Vec<Ev>,
     /// placeholder-sensitive expressions generated for the change under test (origin change_focus)
     pub focus_exprs: Vec<u32>,
+    /// expressions of origin value_relatives: their entries are one base placeholder and its representation relatives
+    pub rel_exprs: Vec<u32>,
 }
 
 pub const FN_TOKENS: [&str; 64] = [
@@ -121,6 +123,9 @@ pub fn index_pool(pool: &mut Pool) -> PoolIndex {
         }
     }
     for (id, es) in pool.by_expr.iter().enumerate() {
+        if es.len() >= 2 && pool.entries[es[0] as usize].origin == "value_relatives" {
+            ix.rel_exprs.push(id as u32);
+        }
         if es.len() >= 2 {
             let first = &pool.entries[es[0] as usize].oracle;
             let any_panic = es.iter().any(|x| matches!(pool.entries[*x as usize].oracle, Outcome::Panic(_)));
@@ -158,6 +163,11 @@ pub enum RunKind {
     /// of the same evaluator (a generation counter, ticket or epoch wraps), the parked call then finishes, and the
     /// busy caller repeats its most recent calls. The pool is a filler pool: entry i is the i-th distinct call.
     StallWrap { base: usize },
+    /// "crowd": K callers (K around 2, 4, 8, 16, 32) are parked in the middle of a call, one after the other, each
+    /// after a warm-up call of its own formula; while all of them are in flight further callers make complete calls;
+    /// the parked calls then finish in a random order and everybody repeats its formula. Fixed-size tables of
+    /// per-call resources (slots, leases, permits) overflow when more calls are in flight than they have entries.
+    Crowd,
 }
 
 /// the stall-and-wrap run over a filler pool (entries 0..n are distinct calls of one evaluator)
@@ -192,6 +202,93 @@ fn stall_wrap_spec(pool: &Pool, seed: u64, base: usize) -> RunSpec {
         clock_jumps: vec![vec![], vec![]],
         stack_depths: vec![vec![], vec![]],
         cpu_limits: vec![0, 0],
+    }
+}
+
+/// the crowd run (see RunKind::Crowd)
+fn crowd_spec(pool: &Pool, ix: &PoolIndex, seed: u64) -> RunSpec {
+    let mut r = Rng::new(mix(seed, 0x6372_6f77));
+    let b = [2usize, 4, 8, 8, 8, 16, 16, 32][r.below(8)];
+    let k = (b + r.below(4)).saturating_sub(1).clamp(1, 35);
+    let ev: Option<Ev> = if !ix.hint_evs.is_empty() && r.chance(0.8) {
+        Some(*r.pick(&ix.hint_evs))
+    } else if r.chance(0.8) {
+        Some(*r.pick(&ALL_EV))
+    } else {
+        None
+    };
+    // an expression of that evaluator whose calls return (no panics), cheap enough to park 35 of
+    let pick_expr = |r: &mut Rng| -> u32 {
+        let from: &Vec<u32> = if !ix.sensitive_exprs.is_empty() && r.chance(0.8) { &ix.sensitive_exprs } else { &ix.ok };
+        let by_entry = !std::ptr::eq(from, &ix.sensitive_exprs);
+        for _ in 0..40 {
+            let x = *r.pick(from);
+            let id = if by_entry { pool.entries[x as usize].expr_id } else { x };
+            let es = &pool.by_expr[id as usize];
+            let e0 = &pool.entries[es[0] as usize];
+            if ev.map_or(true, |v| e0.call.ev == v) && es.iter().all(|e| !matches!(pool.entries[*e as usize].oracle, Outcome::Panic(_)) && pool.entries[*e as usize].ticks < 60_000) {
+                return id;
+            }
+        }
+        pool.entries[ix.ok[r.below(ix.ok.len())] as usize].expr_id
+    };
+    let ni = r.range(1, 2);
+    let n = k + ni;
+    let mut clients: Vec<Vec<u32>> = Vec::new();
+    let mut switches: Vec<crate::sim::Sw> = Vec::new();
+    let mut exprs: Vec<u32> = Vec::new();
+    let mut parked_at: Vec<u32> = Vec::new();
+    for i in 0..k {
+        let ex = if i > 0 && r.chance(0.2) { *r.pick(&exprs) } else { pick_expr(&mut r) };
+        exprs.push(ex);
+        let es = &pool.by_expr[ex as usize];
+        let warm = if r.chance(0.8) { 1 } else { 0 };
+        let after = r.range(1, 2);
+        let calls: Vec<u32> = (0..warm + 1 + after).map(|_| *r.pick(es)).collect();
+        let t = 1 + r.below(pool.entries[calls[warm] as usize].ticks.max(1) as usize) as u32;
+        switches.push(crate::sim::Sw { thread: i as u32, call: warm as u32, tick: t, to: (i + 1) as u32 });
+        parked_at.push(warm as u32);
+        clients.push(calls);
+    }
+    // the finishing order of the parked calls
+    let mut order: Vec<usize> = (0..k).collect();
+    r.shuffle(&mut order);
+    for j in 0..ni {
+        let m = r.range(1, 3);
+        let mut calls: Vec<u32> = Vec::new();
+        let mut mine: Vec<u32> = Vec::new();
+        for _ in 0..m {
+            let ex = if r.chance(0.25) { *r.pick(&exprs) } else { pick_expr(&mut r) };
+            mine.push(ex);
+            calls.push(*r.pick(&pool.by_expr[ex as usize]));
+        }
+        // afterwards, on an idle library: the same formulas again
+        for _ in 0..r.range(1, 3) {
+            let ex = *r.pick(&mine);
+            calls.push(*r.pick(&pool.by_expr[ex as usize]));
+        }
+        let to = if j + 1 < ni { k + j + 1 } else { order[0] };
+        switches.push(crate::sim::Sw { thread: (k + j) as u32, call: m as u32, tick: 0, to: to as u32 });
+        clients.push(calls);
+    }
+    for w in 0..k.saturating_sub(1) {
+        let t = order[w];
+        switches.push(crate::sim::Sw { thread: t as u32, call: parked_at[t] + 1, tick: 0, to: order[w + 1] as u32 });
+    }
+    let est_steps: u64 = clients.iter().map(|c| c.iter().map(|e| pool.entries[*e as usize].ticks as u64 + 1).sum::<u64>() + 1).sum();
+    RunSpec {
+        seed,
+        clients,
+        churn: vec![vec![]; n],
+        policy: Policy::Replay,
+        start: 0,
+        switches,
+        est_steps,
+        want_trace: false,
+        faults_enabled: vec!["crowd"],
+        clock_jumps: vec![vec![]; n],
+        stack_depths: vec![vec![]; n],
+        cpu_limits: vec![0; n],
     }
 }
 
@@ -239,12 +336,15 @@ pub fn make_spec(pool: &Pool, ix: &PoolIndex, seed: u64, kind: RunKind, allow_in
     if let RunKind::StallWrap { base } = kind {
         return stall_wrap_spec(pool, seed, base);
     }
+    if kind == RunKind::Crowd {
+        return crowd_spec(pool, ix, seed);
+    }
     let mut r = Rng::new(mix(seed, 0x776f_726b));
     let nthreads = match kind {
         RunKind::Short => [1usize, 2, 2, 2, 2, 3, 3, 3, 4, 4][r.below(10)],
         RunKind::Wide => 16,
         RunKind::Long { .. } => [1usize, 1, 2, 4, 16][r.below(5)],
-        RunKind::StallWrap { .. } => 2,
+        RunKind::StallWrap { .. } | RunKind::Crowd => 2,
     };
     // swarm: enabled fault kinds for this run
     let f1 = r.chance(0.6) && !ix.err.is_empty();
@@ -255,6 +355,7 @@ pub fn make_spec(pool: &Pool, ix: &PoolIndex, seed: u64, kind: RunKind, allow_in
     let f8 = r.chance(0.3);
     let f9 = r.chance(0.15);
     let f10 = r.chance(0.2);
+    let rel = r.chance(0.2) && !ix.rel_exprs.is_empty();
     // experiment knob (never set by the registered checks): SC_DISABLE_FAULTS=F6,F8,F9,F10
     let off = std::env::var("SC_DISABLE_FAULTS").unwrap_or_default();
     let (f6, f8, f9, f10) = (f6 && !off.contains("F6"), f8 && !off.contains("F8"), f9 && !off.contains("F9"), f10 && !off.contains("F10"));
@@ -287,6 +388,9 @@ pub fn make_spec(pool: &Pool, ix: &PoolIndex, seed: u64, kind: RunKind, allow_in
     } else {
         None
     };
+    if rel {
+        faults_enabled.push("value_relatives");
+    }
     if let Some(b) = bucket {
         faults_enabled.push("function_theme");
         let _ = b;
@@ -348,10 +452,26 @@ pub fn make_spec(pool: &Pool, ix: &PoolIndex, seed: u64, kind: RunKind, allow_in
             }
             RunKind::Wide => r.range(1, 6),
             RunKind::Long { .. } => (total_calls_long / nthreads).max(1),
-            RunKind::StallWrap { .. } => 1,
+            RunKind::StallWrap { .. } | RunKind::Crowd => 1,
         };
         let mut calls: Vec<u32> = Vec::with_capacity(ncalls);
         while calls.len() < ncalls {
+            if rel && r.chance(if total_calls_long > 0 { 0.03 } else { 0.35 }) {
+                // a base value and its representation relatives, the same formula, back to back on this thread
+                let mut ex = *r.pick(&ix.rel_exprs);
+                if !ix.hint_evs.is_empty() {
+                    for _ in 0..8 {
+                        if ix.hint_evs.contains(&pool.entries[pool.by_expr[ex as usize][0] as usize].call.ev) {
+                            break;
+                        }
+                        ex = *r.pick(&ix.rel_exprs);
+                    }
+                }
+                let mut fam: Vec<u32> = pool.by_expr[ex as usize].iter().copied().filter(|e| f2 || !matches!(pool.entries[*e as usize].oracle, Outcome::Panic(_))).collect();
+                r.shuffle(&mut fam);
+                calls.extend(fam);
+                continue;
+            }
             if !working_set.is_empty() {
                 calls.push(*r.pick(&working_set));
                 continue;
